@@ -29,7 +29,7 @@ func main() {
 		Corpus:    corpus,
 		VM:        true,
 		Isolate:   true,
-		Extra:     faultEnumeration,
+		Extra:     func(w *lib.Writer, tier string, seed uint64) { faultEnumeration(w, tier, seed); apiProtected(w, tier, seed) },
 		KF: func(uses map[string]int, src string) []string {
 			var k []string
 			if uses["xpcall"] > 0 || uses["closure-after-xpcall-error"] > 0 {
